@@ -477,12 +477,55 @@ def evaluated(rep, ex: Explorer, qual: str, role: str):
     rep.floor(f"PART.partition evaluations of {qual.rsplit('.', 1)[1]}", n_paths, 30)
 
 
+def evaluated_duplicates(rep, ex: Explorer, qual: str, role: str):
+    """PART.partition [one conditional listed twice]: a base that holds the same conditional object under two keys has two
+    entries; when the conditional is tolerated both entries are in the first layer (two keys for the key-based routine, the
+    object twice for the object-based one) - nothing is merged by identity or by text."""
+    from ..absvals import HDict, HObj, HList
+    from ..harness import BB_CLASS
+
+    site = fn_label(ex.prog, qual)
+    keys = (0, 13)
+
+    def setup(I):
+        c = ElemV(("obj", "c0"), "cond")
+        conds = I.alloc(HDict(entries={k: c for k in keys}))
+        bb = I.alloc(HObj(BB_CLASS, {"conditionals": conds, "signature": Sym(("signature", "D")), "name": Sym(("bbname", "D"), "str")}))
+        return [bb, Const("z3"), Const(False)], {}
+
+    paths = ex.run(qual, setup, key="part-eval-dup", unroll_while=5)
+    n = 0
+    for p in paths:
+        if p.outcome[0] != "return":
+            continue
+        sats = [v for k, v in p.decisions if k[0] == "sat"]
+        if not sats or not all(sats):
+            continue  # (judged on the answers "tolerated" only: the other outcome is False, decided by the main evaluation)
+        rv = p.outcome[1]
+        first = rv.items[0] if isinstance(rv, TupleV) and rv.items else rv
+        o = p.state.heap.get(first.oid) if isinstance(first, Ref) else None
+        n += 1
+        got = None
+        if isinstance(o, HList) and all(sg[0] == "one" for sg in o.segs):
+            got = []
+            for sg in o.segs:
+                L = p.state.heap.get(sg[1].oid) if isinstance(sg[1], Ref) else None
+                if not isinstance(L, HList) or not all(x[0] == "one" for x in L.segs):
+                    raise AnalysisError(f"{site}: a layer of the returned partition is not a concrete list")
+                got.append(sorted([(x[1].value if isinstance(x[1], Const) else "c0" if isinstance(x[1], ElemV) else repr(x[1])) for x in L.segs], key=repr))
+        want = [sorted(keys, key=repr)] if role == "key" else [["c0", "c0"]]
+        rep.check(got == want, "PART.partition", site, "one conditional under two keys, tolerated", "every entry of the base is in the partition, also when two entries hold the same conditional object",
+                  extracted=str(got), required=str(want), function=site)
+    rep.floor(f"PART.partition duplicate-entry evaluations of {qual.rsplit('.', 1)[1]}", n, 1)
+
+
 def check_all(rep, ex: Explorer, only=None):
     stats = {}
     for qual, role in FUNCS.items():
         if only and qual not in only:
             continue
         evaluated(rep, ex, qual, role)
+        evaluated_duplicates(rep, ex, qual, role)
         # a routine that hands the work to its sibling (the partition computed once, over keys or over conditionals, and
         # converted): the loop the generic reading looks for lives in the sibling and is read there; what this routine makes
         # of the sibling's result is decided by the evaluation above
